@@ -740,6 +740,9 @@ def rule_r4(repo: Repo, res: Result) -> None:
         kinds = sorted({s[0] for s in src})
         k += 1
         ok = not any(kd.startswith("IMPORTEE") for kd in kinds)
+        if ok and (not kinds or any(kd.startswith("OTHER") for kd in kinds)):
+            res.undecide("C04.R4", repo.key(e.fi, stmt_of(e.node)) + " [node]", f"cannot tell which names `{show(a, 100)}` stands for (scanned modules, importers or imported names)", where(e.fi, e.node))
+            continue
         res.add("C04.R4", repo.key(e.fi, stmt_of(e.node)) + f" [node from {kinds or ['?']}]", ok, "nodes are created from scanned modules / importers and their ancestors" if ok else f"`{norm(e.node, 60)}` creates a node from an *imported* name ({show(next(s[1] for s in src if s[0].startswith('IMPORTEE')), 100)}): names that are not files or directories of the scanned tree (relative import parts, functions, classes) become modules", where(e.fi, e.node), kind="flow")
     res.floor("C04.R4.nodes", 2, k)
     # networkx creates missing end nodes of an edge: an edge that involves an imported name must be guarded by 'both ends are nodes'
@@ -1065,7 +1068,16 @@ def rule_r5(repo: Repo, res: Result) -> None:
         else:
             prefix = restrict(prefix, e.guard)
             alts = list(prefix[1]) if prefix[0] == "phi" else [(TRUE, prefix)]
-            main = [(g, v) for g, v in alts if not is_const(v, "")]
+            # `name or "."`: the name when it is not empty, else the constant
+            expanded = []
+            for g, v in alts:
+                if v[0] == "boolop" and v[1] == "or" and len(v[2]) == 2 and v[2][1][0] == "const":
+                    tr_ = sx.truth(v[2][0])
+                    expanded += [(f_and([g, tr_]), v[2][0]), (f_and([g, f_not(tr_)]), v[2][1])]
+                else:
+                    expanded.append((g, v))
+            alts = [(g, v) for g, v in expanded if g != FALSE]
+            main = [(g, v) for g, v in alts if not (is_const(v, "") or is_const(v, "."))]  # '.name' / '..name' are never modules
             ds = [dotted(v) for _g, v in main]
             key = f"{tag}::absolute-import prefix"
             if not main:
@@ -1096,6 +1108,8 @@ def rule_r5(repo: Repo, res: Result) -> None:
                         tests[k_] = True
                 elif loc(t) == ("attr", rel_mr, "parts"):
                     tests[k_] = False
+                elif dotted(t) == want or loc(t) == ("attr", want[0][1], "parts"):
+                    tests[k_] = False  # the prefix itself is empty exactly when both paths coincide
             def as_same(f: Formula) -> Formula:
                 return rename_atoms(f, lambda k_: (atom("SAME") if tests[k_] else f_not(atom("SAME"))) if k_ in tests else None)
 
